@@ -230,7 +230,14 @@ impl CodeGen<'_> {
                 }
             }
             75..=89 if self.control_flow && *budget > 0 && depth < 4 => {
-                match self.rng.below(6) {
+                match self.rng.below(7) {
+                    6 if depth > 0 || self.results.is_empty() => {
+                        // a try_table frame: not a construct the special modes apply to, but it counts
+                        // as a control frame for every branch depth inside it
+                        out.push(Ins::TryTable(BT::Empty, vec![(None, 0)]));
+                        self.seq(out, depth + 1, budget);
+                        out.push(Ins::End);
+                    }
                     0 | 1 => {
                         out.push(Ins::Block(BT::Empty));
                         self.seq(out, depth + 1, budget);
@@ -272,8 +279,13 @@ impl CodeGen<'_> {
                         out.push(Ins::End);
                     }
                     _ => {
-                        let n = self.rng.below(3);
-                        let t: Vec<u32> = (0..n).map(|_| self.rng.below(depth as usize + 1) as u32).collect();
+                        // targets often repeat (several table entries landing on one label)
+                        let n = self.rng.below(4);
+                        let mut t: Vec<u32> = vec![];
+                        for k in 0..n {
+                            let v = if k > 0 && self.rng.chance(1, 2) { t[0] } else { self.rng.below(depth as usize + 1) as u32 };
+                            t.push(v);
+                        }
                         out.push(Ins::Block(BT::Empty));
                         out.push(Ins::I32Const(self.rng.below(4) as i32));
                         out.push(Ins::BrTable(t, d + 1));
